@@ -361,9 +361,11 @@ pub fn c12(ctx: &Ctx) -> (Report, Meta) {
                 }
             }
         }
+        // thorough: every pool message whose fresh frame is at most 64 bytes long is a target
+        let short_ok = |i: usize| ctx.tier.thorough() && matches!(&fresh[i], Ok(Ok(f)) if f.len() <= 64);
         let targets: Vec<usize> = (0..n).filter(|i| {
             let nm = pool[*i].0.as_str();
-            ["Msg1001 x0 default satellites", "Msg1001 x1 default satellites", "Msg1001 x2 default satellites", "Msg1001 x3 default satellites", "Msg1004 x1 default satellites", "Msg1012 x1 default satellites", "1005:zero", "1029:zero", "1230:zero", "1127 1x1"].contains(&nm)
+            short_ok(*i) || ["Msg1001 x0 default satellites", "Msg1001 x1 default satellites", "Msg1001 x2 default satellites", "Msg1001 x3 default satellites", "Msg1004 x1 default satellites", "Msg1012 x1 default satellites", "1005:zero", "1029:zero", "1230:zero", "1127 1x1"].contains(&nm)
         }).collect();
         let mut rungs = 0u64;
         let mut lens = std::collections::BTreeSet::new();
